@@ -314,9 +314,9 @@ GENERIC_FILES = ['permuta/patterns/perm.py', 'permuta/patterns/patt.py']
 
 
 def variants():
-    from ..selftest import generic_silent
+    from ..selftest import generic_equiv, generic_silent
 
-    return _variants() + generic_silent(GENERIC_FILES)
+    return _variants() + generic_silent(GENERIC_FILES) + generic_equiv(GENERIC_FILES)
 
 
 def _variants():
@@ -630,9 +630,14 @@ def rule_o2(ctx: Ctx) -> None:
         raise AnalysisError(f"{occ.where}: colour arguments not recognised")
     sc, pc = [unparse(e) for e in unpack[0].targets[0].elts]
     v = unpack[0].value
-    if not (unparse(v.body) == "(None, None)" and unparse(v.test) in (f"len({va}) < 2", f"len({va}) != 2") and unparse(v.orelse) == va):
-        ctx.violation("C01-O2", occ, unpack[0], f"colourings are taken as `{unparse(v)}`; expected (pattern colours, target colours) = args when both are supplied, otherwise none")
+    from ..skelrules import classify_term
+
+    verdict, why = classify_term(ctx.repo, T(v, Env()), [T(ast.parse(src, mode="eval").body, Env()) for src in (f"(None, None) if len({va}) < 2 else {va}", f"(None, None) if len({va}) != 2 else {va}")])
+    if verdict == "violation":
+        ctx.violation("C01-O2", occ, unpack[0], f"colourings are taken as `{unparse(v)}`; expected (pattern colours, target colours) = args when both are supplied, otherwise none ({why[:160]})")
         return
+    if verdict != "ok":
+        raise AnalysisError(f"{occ.where}: how the colourings are taken from the arguments (`{unparse(v)[:80]}`) is not recognised")
     target = next((unparse(st.targets[0].elts[1]) for st in occ.body if isinstance(st, ast.Assign) and isinstance(st.targets[0], ast.Tuple) and isinstance(st.value, ast.Tuple)
                    and len(st.value.elts) == 2 and unparse(st.value.elts[1]) == f"{occ.params[1]}.get_perm()"), None)
     if target is None:
@@ -648,19 +653,29 @@ def rule_o2(ctx: Ctx) -> None:
             env[st.targets[0].id] = st.value
     test = subst_names(accepts[0].test, env)
     got = T(test, Env())
-    # locate the two bound names
-    names = [n.id for n in ast.walk(accepts[0].test) if isinstance(n, ast.Name)]
-    cmp = [n for n in ast.walk(test) if isinstance(n, ast.Compare) and len(n.ops) == 2]
-    if len(cmp) != 1:
-        ctx.violation("C01-O2", rec, accepts[0], "the acceptance test is not a two-sided bound test `lower <= entry <= upper` (conjoined with the colour test)")
-        return
-    lo, mid, hi = unparse(cmp[0].left), unparse(cmp[0].comparators[0]), unparse(cmp[0].comparators[1])
-    want = T(ast.parse(f"({sc} is None or {pc}[{i}] == {sc}[{k}]) and {lo} <= {target}[{i}] <= {hi}", mode="eval").body, Env())
-    if got == want and all(isinstance(o, ast.LtE) for o in cmp[0].ops):
-        ctx.ok("C01-O2", rec.where, f"accept iff (no colouring or colour of target position {i} == colour of pattern position {k}) and {lo} <= {target}[{i}] <= {hi}", accepts[0], rec)
+    # locate the two bounds: comparisons of the candidate entry target[i] with something else
+    entry = f"{target}[{i}]"
+    lows, highs = [], []
+    for n in ast.walk(test):
+        if isinstance(n, ast.Compare) and len(n.ops) == 1 and isinstance(n.ops[0], (ast.Lt, ast.LtE)):
+            if unparse(n.comparators[0]) == entry:
+                lows.append(unparse(n.left))
+            elif unparse(n.left) == entry:
+                highs.append(unparse(n.comparators[0]))
+        elif isinstance(n, ast.Compare) and len(n.ops) == 2 and unparse(n.comparators[0]) == entry:
+            lows.append(unparse(n.left))
+            highs.append(unparse(n.comparators[1]))
+    if len(lows) != 1 or len(highs) != 1:
+        raise AnalysisError(f"{rec.where}: the two-sided bound test `lower <= {entry} <= upper` was not found in the acceptance test `{unparse(test)[:100]}`")
+    lo, hi = lows[0], highs[0]
+    want = T(ast.parse(f"({sc} is None or {pc}[{i}] == {sc}[{k}]) and {lo} <= {entry} and {entry} <= {hi}", mode="eval").body, Env())
+    verdict, why = classify_term(ctx.repo, got, [want])
+    if verdict == "ok":
+        ctx.ok("C01-O2", rec.where, f"accept iff (no colouring or colour of target position {i} == colour of pattern position {k}) and {lo} <= {entry} <= {hi}", accepts[0], rec)
+    elif verdict == "violation":
+        ctx.violation("C01-O2", rec, accepts[0], f"acceptance test {why[:400]}")
     else:
-        ctx.violation("C01-O2", rec, accepts[0], f"acceptance test is  {show(got)[:220]} ; expected  {show(want)[:220]}")
-    _ = (names, mid)
+        raise AnalysisError(f"{rec.where}: acceptance test  {show(got)[:200]}  is neither the expected  {show(want)[:200]}  nor a point change of it")
 
 
 _OLD_RUN4 = run
